@@ -1,6 +1,7 @@
 import groups_vm
 import groups_gen
 import groups_parse
+import groups_macro
 
 
 def all_groups():
@@ -8,4 +9,5 @@ def all_groups():
     gs += groups_vm.groups()
     gs += groups_gen.groups()
     gs += groups_parse.groups()
+    gs += groups_macro.groups()
     return gs
